@@ -67,3 +67,69 @@ Definition kf_redis_unack_reload (fx : fixes) (ops : list ruop) : bool :=
 (* ---------- queue ---------- *)
 Definition c10r_ok (max : nat) (ifexp : N) (ops : list rqop) (outs : list oout) : bool :=
   c10_ok max ifexp (abstract_ops false 0 ops) outs.
+
+(* ---------- classification of the redis queue's deviations from the abstract queue ----------
+   The faithful model (Model/RQueue.v) is stepped together with the abstract queue; the first
+   operation whose output the abstract queue rejects is classified by the situation it was
+   issued in.  Each class is one defect of persistence/queue/redis/redis.go. *)
+Inductive rqclass :=
+| RQNone                      (* the whole trace is accepted *)
+| RQLenAfterRestart           (* Add on a fresh object (broker restart) before Init: len is 0, the bound is not enforced *)
+| RQLrangeMinus1              (* Read with no ids / ReadInflight(0) at cursor 0: LRANGE 0 -1 reads the whole list *)
+| RQAddBeforeReplay           (* Add on a full queue between Init(clean=false) and ReadInflight: in-flight entries are treated as queued (wrong victim, or panic on a PUBREL entry) *)
+| RQStaleCache                (* Remove of an id whose entry Add already sacrificed: counters and cursor move although nothing is removed *)
+| RQReplaceCursor0            (* Replace while the cursor is 0 inspects element 0 *)
+| RQOther.
+
+Fixpoint blob_mem (b : blob) (l : list blob) : bool :=
+  match l with [] => false | x :: r => blob_eqb x b || blob_mem b r end.
+
+Definition rq_situation (s : rstore) (q : rq) (o : rqop) : rqclass :=
+  match o with
+  | ROp (OAdd _ _) =>
+      match rq_cache q with
+      | None => RQLenAfterRestart
+      | Some _ => if negb (rq_drained q) then RQAddBeforeReplay else RQOther
+      end
+  | ROp (ORead _ pids) => match pids with [] => if (rq_cur q =? 0)%Z then RQLrangeMinus1 else RQOther | _ => RQOther end
+  | ROp (OReadInflight _ n) => match n with O => if (rq_cur q =? 0)%Z then RQLrangeMinus1 else RQOther | _ => RQOther end
+  | ROp (ORemove pid) =>
+      match rq_cache q with
+      | Some c => match cache_get pid c with
+                  | Some e => match lget (rq_key q) s with
+                              | Some l => if blob_mem (BElem e) l then RQOther else RQStaleCache
+                              | None => RQOther
+                              end
+                  | None => RQOther
+                  end
+      | None => RQOther
+      end
+  | ROp (OReplace _) => if (rq_cur q =? 0)%Z then RQReplaceCursor0 else RQOther
+  | _ => RQOther
+  end.
+
+Fixpoint rq_classify (s : rstore) (q : rq) (a : ast) (v5 : bool) (limit : N) (ops : list rqop) : rqclass :=
+  match ops with
+  | [] => RQNone
+  | o :: r =>
+      let x := rq_step s q o in
+      let '(ao, v5', limit') :=
+        match o with
+        | ROp (OInit c v l) => (OInit c v l, v, l)
+        | ROp o' => (o', v5, limit)
+        | ORestart => (OInit false v5 limit, v5, limit)
+        end in
+      match step_ok a ao (oout_of (r_out x)) with
+      | Some a' =>
+          if inv_ok a' then
+            match r_out x with
+            | RPanic => RQNone
+            | _ => rq_classify (r_store x) (r_q x) a' v5' limit' r
+            end
+          else rq_situation s q o
+      | None => rq_situation s q o
+      end
+  end.
+
+Definition rq_class (max : nat) (ifexp : N) (ops : list rqop) : rqclass :=
+  rq_classify [] (rq_new max ifexp [99]) (a_new max ifexp) false 0 ops.
